@@ -358,6 +358,8 @@ pub struct Model {
     pub meta_empty: Option<usize>,
     /// Plutus scripts (index into World::plutus) used BY REFERENCE for a purpose other than spending
     pub ref_plutus: Vec<usize>,
+    /// native script 0 used BY REFERENCE for a purpose other than spending (certificate 24, withdrawal 8, vote 8)
+    pub ref_native_uses: u32,
     /// the last operation that `Again` can repeat
     pub last: Option<Op>,
     pub again: u32,
@@ -421,6 +423,17 @@ fn plutus_witness(w: &World, p: usize, variant: u8, tag: RedeemerTag, marker: u6
         let src = if variant == 2 { PlutusScriptSource::new(&w.plutus[p]) } else { PlutusScriptSource::new_ref_input(&w.plutus[p].hash(), &op_outpoint(REF_SCRIPT_OUTPOINT), &plutus_lang(w, p), REF_SCRIPT_SIZE) };
         PlutusWitness::new_with_ref(&src, &DatumSource::new_ref_input(&op_outpoint(22)), &red)
     }
+}
+
+/// native script `n` supplied by reference (outpoint REF_SCRIPT_OUTPOINT + 1), all its keys declared as signers
+pub fn native_by_ref(w: &World, n: usize) -> NativeScriptSource {
+    let mut s = NativeScriptSource::new_ref_input(&w.native[n].hash(), &op_outpoint(REF_SCRIPT_OUTPOINT + 1), 40);
+    let mut ks = Ed25519KeyHashes::new();
+    for k in declared_native_signers(w, n, 1) {
+        ks.add(&Ed25519KeyHash::from_bytes(k).unwrap());
+    }
+    s.set_required_signers(&ks);
+    s
 }
 
 /// signers declared for a native script used by reference: variant 1 all keys it names,
@@ -516,7 +529,12 @@ pub fn apply(w: &World, st: &mut St, op: Op) -> bool {
                     } else {
                         // script credential 1 is witnessed by the two-key script (keys 0 and 3), the others by the
                         // one-key script: a certificate's script signers then overlap the keys of other certificates
-                        st.certs.add_with_native_script(&c.cert, &NativeScriptSource::new(&w.native[if s == 1 { 1 } else { 0 }]))
+                        if k == 24 {
+                            // this one names its (one-key) script by reference
+                            st.certs.add_with_native_script(&c.cert, &native_by_ref(w, 0))
+                        } else {
+                            st.certs.add_with_native_script(&c.cert, &NativeScriptSource::new(&w.native[if s == 1 { 1 } else { 0 }]))
+                        }
                     }
                 }
             };
@@ -524,6 +542,9 @@ pub fn apply(w: &World, st: &mut St, op: Op) -> bool {
                 return false;
             }
             st.m.certs.push(k);
+            if k == 24 {
+                st.m.ref_native_uses += 1;
+            }
             st.m.last = Some(op);
             true
         }
@@ -563,6 +584,14 @@ pub fn apply(w: &World, st: &mut St, op: Op) -> bool {
                 // the account of Plutus script 2 (V3), the script supplied by reference: its language is used by
                 // nothing else unless another item brings it
                 7 => st.wds.add_with_plutus_witness(&RewardAddress::new(1, &Credential::from_scripthash(&w.plutus[2].hash())), &bn(1_900_000), &plutus_witness(w, 2, 1, RedeemerTag::new_reward(), 300 + i as u64, None)),
+                // the native-script account of withdrawal 1 with the script supplied by reference
+                8 => {
+                    if st.m.wds.contains(&1) {
+                        return false;
+                    }
+                    st.wds.add_with_native_script(&RewardAddress::new(1, &Credential::from_scripthash(&w.native[0].hash())), &bn(1_100_000), &native_by_ref(w, 0))
+                }
+                1 if st.m.wds.contains(&8) => return false,
                 0 => st.wds.add(&reward_key(0), &bn(WD_AMOUNT[0])),
                 1 => st.wds.add_with_native_script(&RewardAddress::new(1, &Credential::from_scripthash(&w.native[0].hash())), &bn(WD_AMOUNT[1]), &NativeScriptSource::new(&w.native[0])),
                 2 => st.wds.add(&reward_key(2), &bn(WD_AMOUNT[2])),
@@ -574,6 +603,9 @@ pub fn apply(w: &World, st: &mut St, op: Op) -> bool {
             st.m.wds.push(i);
             if i == 7 {
                 st.m.ref_plutus.push(2);
+            }
+            if i == 8 {
+                st.m.ref_native_uses += 1;
             }
             true
         }
@@ -688,6 +720,10 @@ pub fn apply(w: &World, st: &mut St, op: Op) -> bool {
             if st.m.votes.contains(&i) {
                 return false;
             }
+            // 3 / 8 and 4 / 7 are the same voter with the script inline / by reference
+            if (i == 3 && st.m.votes.contains(&8)) || (i == 8 && st.m.votes.contains(&3)) || (i == 4 && st.m.votes.contains(&7)) || (i == 7 && st.m.votes.contains(&4)) {
+                return false;
+            }
             let aid = GovernanceActionId::new(&txhash(0x33), 1);
             let vp = VotingProcedure::new(VoteKind::Yes);
             let r = match i {
@@ -703,6 +739,13 @@ pub fn apply(w: &World, st: &mut St, op: Op) -> bool {
                     st.votes.add_with_plutus_witness(&Voter::new_drep_credential(&Credential::from_scripthash(&w.plutus[2].hash())), &aid, &vp, &plutus_witness(w, 2, 1, RedeemerTag::new_vote(), 500 + i as u64, None))
                 }
                 4 if st.m.votes.contains(&7) => return false,
+                // the committee script voter of vote 3 with the script supplied by reference
+                8 => {
+                    if st.m.votes.contains(&3) {
+                        return false;
+                    }
+                    st.votes.add_with_native_script(&Voter::new_constitutional_committee_hot_credential(&Credential::from_scripthash(&w.native[0].hash())), &aid, &vp, &native_by_ref(w, 0))
+                }
                 5 => st.votes.add_with_plutus_witness(&Voter::new_constitutional_committee_hot_credential(&Credential::from_scripthash(&w.plutus[0].hash())), &aid, &vp, &plutus_witness(w, 0, 0, RedeemerTag::new_vote(), 500 + i as u64, None)),
                 // the same script as 5, voting in another role (DRep): two voters, one script hash
                 6 => st.votes.add_with_plutus_witness(&Voter::new_drep_credential(&Credential::from_scripthash(&w.plutus[0].hash())), &aid, &vp, &plutus_witness(w, 0, 0, RedeemerTag::new_vote(), 500 + i as u64, None)),
@@ -714,6 +757,9 @@ pub fn apply(w: &World, st: &mut St, op: Op) -> bool {
             st.m.votes.push(i);
             if i == 7 {
                 st.m.ref_plutus.push(2);
+            }
+            if i == 8 {
+                st.m.ref_native_uses += 1;
             }
             st.m.last = Some(op);
             true
@@ -1214,6 +1260,12 @@ pub fn needed_signers(w: &World, st: &St, t: &PTx) -> Result<Needed, String> {
             }
         }
     }
+    if st.m.ref_native_uses > 0 {
+        // a native script used by reference outside the inputs: its declared signers (all keys it names)
+        for k in declared_native_signers(w, 0, 1) {
+            n.keys.insert(k);
+        }
+    }
     let _ = native_in_use;
     Ok(n)
 }
@@ -1259,7 +1311,7 @@ pub fn ops_for(prop: &str) -> Vec<Op> {
             Op::Fee(0), Op::Fee(1), Op::Fee(2), Op::Fee(3), Op::Coll(1), Op::Meta, Op::RefIn(1), Op::RefIn(3),
             Op::WdAgain(0), Op::WdAgain(2), Op::Wd(4), Op::InAgain(0), Op::In(7, 0), Op::In(7, 1), Op::In(8, 0), Op::In(17, 0),
             Op::Ttl, Op::Treasury, Op::MintAndOutput, Op::MetaJson, Op::ExtraDatum(1), Op::ExtraDatum(0), Op::ExtraDatum(4), Op::MetaEmpty(0), Op::MetaEmpty(1),
-            Op::In(18, 0), Op::Mint(6), Op::Mint(5), Op::In(19, 0), Op::Wd(6), Op::In(20, 0), Op::Again, Op::Coll(3), Op::Coll(4), Op::Wd(7),
+            Op::In(18, 0), Op::Mint(6), Op::Mint(5), Op::In(19, 0), Op::Wd(6), Op::In(20, 0), Op::Again, Op::Coll(3), Op::Coll(4), Op::Wd(7), Op::Wd(8), Op::Cert(24),
         ],
         // C16 looks at ordering and repetition in the built transaction: items that bring scripts,
         // datums, reference inputs, signers - one or two per source
@@ -1271,7 +1323,7 @@ pub fn ops_for(prop: &str) -> Vec<Op> {
         "C18" => vec![
             Op::In(0, 0), Op::In(2, 0), Op::In(1, 0), Op::In(5, 0), Op::In(13, 0), Op::In(12, 0), Op::In(6, 0), Op::In(6, 1), Op::In(10, 0), Op::In(10, 2), Op::In(16, 3), Op::In(16, 1), Op::In(7, 0), Op::In(7, 1), Op::In(7, 4), Op::In(11, 0), Op::In(8, 0), Op::In(8, 2), Op::In(14, 0), Op::In(14, 4), Op::In(17, 0), Op::In(17, 1),
             Op::Out(0), Op::Coll(1), Op::Coll(0), Op::Cert(5), Op::Cert(7), Op::Cert(8), Op::Cert(6), Op::Cert(13), Op::Cert(25), Op::Cert(27),
-            Op::Wd(0), Op::Wd(1), Op::Wd(3), Op::Wd(4), Op::Wd(6), Op::Wd(7), Op::Vote(0), Op::Vote(1), Op::Vote(2), Op::Vote(3), Op::Vote(4), Op::Vote(7),
+            Op::Wd(0), Op::Wd(1), Op::Wd(3), Op::Wd(4), Op::Wd(6), Op::Wd(7), Op::Wd(8), Op::Cert(24), Op::Vote(0), Op::Vote(1), Op::Vote(2), Op::Vote(3), Op::Vote(4), Op::Vote(7), Op::Vote(8),
             Op::Mint(0), Op::Mint(2), Op::Mint(7), Op::ReqSigner(3), Op::ReqSigner(0), Op::RefIn(0), Op::RefIn(1), Op::RefIn(2), Op::ExtraDatum(0), Op::ExtraDatum(1), Op::ExtraDatum(3), Op::Meta,
         ],
         "C09" | "C10" => vec![
